@@ -5,7 +5,7 @@
 Require Extraction.
 Require Import ExtrOcamlBasic.
 From Coq Require Import List NArith ZArith.
-From SDB Require Import Base.Bytes Base.Assoc Params Model.Codec Model.Lock Model.Page Model.Pool Model.SqlRef Model.Catalog Model.Query Model.Wal Model.LogCodec Model.WalTrace Model.Sched Model.ReqMgr Model.Engine Model.IndexWrap Model.Trace Model.Join Model.SkipList Model.Startup Model.HashTable Model.Heap Model.TupleCodec Model.CatalogRows Model.TmpPage Model.WalLink Model.PageAlloc Model.Clock.
+From SDB Require Import Base.Bytes Base.Assoc Params Model.Codec Model.Lock Model.Page Model.Pool Model.SqlRef Model.Catalog Model.Query Model.Wal Model.LogCodec Model.WalTrace Model.Sched Model.ReqMgr Model.Engine Model.IndexWrap Model.Trace Model.Join Model.SkipList Model.Startup Model.HashTable Model.Heap Model.TupleCodec Model.CatalogRows Model.TmpPage Model.WalLink Model.PageAlloc Model.Clock Model.DiskFile.
 
 Extraction Blacklist List String Int.
 
@@ -65,4 +65,6 @@ Extraction "sdbmodel.ml"
   pa_init pa_step pa_client_ok pa_image_ok pa_inuse_nodup pa_new_fresh pa_reusable_ok pa_lset
   (* M3c the pool's replacer (a clock in name, a first-in-first-out queue in fact) (C13) *)
   clock_init clock_step clock_run clock_dump
+  (* M3d the file layer: db file pages / holes / size, allocator start, log file (C13) *)
+  dm_mk dm_empty dm_open dm_write_page dm_read_page dm_size dm_allocate dm_write_log dm_read_log dm_log_size dm_gc_log dm_step dm_run
   N.of_nat N.to_nat Z.of_N Z.to_N Z.compare N.compare.
